@@ -147,7 +147,6 @@ fn check_actor(needs: &HashMap<ActorId, Vec<SyncNeedV1>>, actor: ActorId, ours: 
 }
 
 #[kani::proof]
-#[kani::unwind(8)]
 fn c04_requests_complete_and_within_head() {
     let (our_a, their_a) = (any_side(), any_side());
     let (our_b, their_b) = (any_side(), any_side());
@@ -179,7 +178,6 @@ fn c04_requests_complete_and_within_head() {
 
 /// single foreign actor, larger domain (thorough tier)
 #[kani::proof]
-#[kani::unwind(10)]
 fn c04_requests_single_actor_deep() {
     let (our_a, their_a) = (any_side(), any_side());
     let mut ours = SyncStateV1 { actor_id: SELF, ..Default::default() };
@@ -197,7 +195,6 @@ fn c04_requests_single_actor_deep() {
 // exactly once, whatever the order the (possibly overlapping) needs are popped in
 // ---------------------------------------------------------------------------------------------
 #[kani::proof]
-#[kani::unwind(8)]
 fn c04_dedup_forwards_each_version_once() {
     let mut req_full: HashMap<ActorId, RangeInclusiveSet<CrsqlDbVersion>> = HashMap::new();
     let mut req_partials: HashMap<(ActorId, CrsqlDbVersion), RangeInclusiveSet<CrsqlSeq>> = HashMap::new();
@@ -239,7 +236,6 @@ fn c04_dedup_forwards_each_version_once() {
 }
 
 #[kani::proof]
-#[kani::unwind(8)]
 fn c04_dedup_forwards_each_seq_once() {
     let mut req_full: HashMap<ActorId, RangeInclusiveSet<CrsqlDbVersion>> = HashMap::new();
     let mut req_partials: HashMap<(ActorId, CrsqlDbVersion), RangeInclusiveSet<CrsqlSeq>> = HashMap::new();
